@@ -40,6 +40,12 @@ def run(run):
                     if atom_text(a) not in [atom_text(b) for b in plain]:
                         plain.append(a)
                 groups.append((k1, plain))
+                # comparisons of one accessor with different literals (mutually exclusive equalities): nothing can be
+                # concluded from them once a `!` is involved
+                nm = (proj.values.get((k1, "getName")) or ["a", "b"])
+                v1, v2 = (rng.sample(nm, 2) if len(nm) >= 2 else (nm[0], "zz"))
+                eq = lambda v: ("atom", (QG.ident("x"), QG.sym("."), QG.ident("getName"), QG.sym("("), QG.sym(")"), QG.sym("=="), QG.strlit(QG.esc_lit(v))))
+                groups.append((k1, [eq(v1), eq(v2), eq("no such name")]))
                 # atoms outside the reference fragment, one of which raises at run time on some entities
                 ci = [("atom", (QG.ident("x"), QG.sym("."), QG.ident("getClassInstanceExpr"), QG.sym("("), QG.sym(")"), QG.sym("."), QG.ident("GetArg"),
                                 QG.sym("("), ("NUMBER", "0"), QG.sym(")"), QG.sym("."), QG.ident("NodeString"), QG.sym("=="), QG.strlit('\\"x\\"'))),
